@@ -206,6 +206,10 @@ class DrawMachine:
                     return _trunc(num(recv))
                 if m in ("floor", "floor_"):
                     return _floor(num(recv))
+                if m in ("ceil", "ceil_") and not e.args:
+                    return Fraction(math.ceil(num(recv)))
+                if m in ("round", "round_") and not e.args:
+                    return Fraction(round(Fraction(num(recv))))  # (half to even, as the library rounds)
                 if m in ("clamp", "clamp_", "clip"):
                     lo = e.args[0] if len(e.args) > 0 else kw(e, "min")
                     hi = e.args[1] if len(e.args) > 1 else kw(e, "max")
@@ -288,7 +292,7 @@ def draw_table(func_node, pnames):
     bad = {}
     n = 0
     F_ = Fraction
-    for L, T in ((F_(5), 8), (F_(8), 8), (F_(1), 8)):
+    for L, T in ((F_(5), 8), (F_(8), 8), (F_(1), 8), (F_(7), 8)):  # (7: a quarter of it has a fractional part above one half)
         for Fv in (4, 7):
             for r in (F_(0), F_(1, 3), F_(999, 1000)):
                 for j in (0, 1, 3):
